@@ -89,14 +89,16 @@ def check(repo, tier):
             if not good:
                 run.add(F(entry, 'D2', 'inputs modified', f'{scen}: a core or the metadata of x or y was replaced'))
             # D3 options
-            calls = [e for e in sc.events('call') if e['callee'].name == 'pinv' and any(c.endswith(which) for c in e.get('callers', [])[-2:])]
+            calls = [e for e in sc.events('call') if e['callee'].name in ('pinv', 'svd') and e['args'] and e['args'][0] is x]
             good = False
+            if not calls:
+                raise AnalysisError(f'{scen}: neither TT.pinv nor TT.svd is applied to x: the way the pseudoinverse is formed is not one the analysis recognises')
             if calls:
                 c = calls[0]
-                args, kw = c['args'], c['kwargs']
-                index = args[1] if len(args) > 1 else kw.get('index')
-                good = index == d - 1 and kw.get('threshold', args[2] if len(args) > 2 else None) == thr and kw.get('ortho_l', args[3] if len(args) > 3 else True) is ol and \
-                    kw.get('ortho_r', args[4] if len(args) > 4 else True) is orr and args[0] is x
+                names = ['self', 'index', 'threshold', 'ortho_l', 'ortho_r', 'overwrite'] if c['callee'].name == 'pinv' else ['self', 'index', 'threshold', 'max_rank', 'ortho_l', 'ortho_r', 'overwrite']
+                argd = dict(zip(names, c['args']))
+                argd.update(c['kwargs'])
+                good = argd.get('index') == d - 1 and argd.get('threshold', 0.0) == thr and argd.get('ortho_l', True) is ol and argd.get('ortho_r', True) is orr
             run.oblige('D3', (entry, scen), good)
             if not good:
                 c = calls[0] if calls else None
